@@ -92,8 +92,9 @@ fn case_strategy() -> impl Strategy<Value = Case> {
         let pos = (prop_oneof![3 => 0u32..30, 1 => Just(maxr), 1 => 0..=maxr], prop_oneof![3 => 0u32..12, 1 => Just(maxc), 1 => Just(26u32), 1 => 0..=maxc]);
         // keep the bounding box of formula cells small: one anchor, small offsets
         (pos, proptest::collection::btree_map((0u32..12, 0u32..8), expr(wide), 1..8), proptest::collection::btree_set((0u32..12, 0u32..8), 0..5), any::<u8>(), crate::props::c13::layout_strategy()).prop_map(move |((r0, c0), fs, cs, class_knob, cfb)| {
-            let r0 = r0.min(maxr - 12);
-            let c0 = c0.min(maxc - 8);
+            // the window (12 x 8) may end exactly on the last row / column of the grid
+            let r0 = r0.min(maxr - 11);
+            let c0 = c0.min(maxc - 7);
             let formulas: Vec<(Pos, Expr)> = fs.into_iter().map(|((r, c), e)| ((r0 + r, c0 + c), e)).collect();
             let consts = cs.into_iter().map(|(r, c)| (r0 + r, c0 + c)).filter(|p| !formulas.iter().any(|(q, _)| q == p)).collect();
             Case { formulas, consts, wide, class_knob, cfb }
@@ -280,10 +281,12 @@ fn oracle(case: &Case) -> Report {
     if case.formulas.iter().all(|(p, _)| p.0 < 1_048_576 && p.1 < 16_384) {
         let mut grid = BTreeMap::new();
         let mut exp = BTreeMap::new();
-        for (p, e) in &case.formulas {
+        for (i, (p, e)) in case.formulas.iter().enumerate() {
             let text = format!("of:={}", render(e));
             exp.insert(*p, text.clone());
-            grid.insert(od::key(*p), od::OCell { value: od::OVal::Float { lex: "0".into(), kind: 0 }, formula: Some(text), annotation: None, covered: false, esc: 0 });
+            // some producers leave the calculation to the consumer: a formula without cached value
+            let value = if (i + case.class_knob as usize) % 4 == 2 { od::OVal::Empty } else { od::OVal::Float { lex: "0".into(), kind: 0 } };
+            grid.insert(od::key(*p), od::OCell { value, formula: Some(text), annotation: None, covered: false, esc: 0 });
         }
         for p in &case.consts {
             grid.insert(od::key(*p), od::OCell::of(od::OVal::Float { lex: "7".into(), kind: 0 }));
